@@ -1534,6 +1534,13 @@ where
         let AttributeOp { selector, action } = op;
         let dict = self.dict.clone();
 
+        // constructive actions create missing sequences and items along the way:
+        // make sure beforehand that every nested step can be resolved or created,
+        // so that no changes are made if the operation fails
+        if action.is_constructive() {
+            self.check_constructive_path(&selector, &dict)?;
+        }
+
         let mut obj = self;
         for (i, step) in selector.iter().enumerate() {
             match step {
@@ -1594,6 +1601,60 @@ where
             }
         }
         unreachable!()
+    }
+
+    /// Check that all nested steps of the selector
+    /// can be resolved or created by a constructive action,
+    /// without making any changes.
+    fn check_constructive_path(&self, selector: &AttributeSelector, dict: &D) -> ApplyResult {
+        // the data set reached so far,
+        // `None` once the path goes through something yet to be created
+        let mut obj = Some(self);
+        for (i, step) in selector.iter().enumerate() {
+            if let AttributeSelectorStep::Nested { tag, item } = step {
+                match obj.and_then(|o| o.entries.get(tag)) {
+                    None => {
+                        // the sequence would be created with one item
+                        let vr = dict
+                            .by_tag(*tag)
+                            .and_then(|entry| entry.vr().exact())
+                            .unwrap_or(VR::UN);
+                        if vr != VR::SQ && vr != VR::UN {
+                            return Err(ApplyError::NotASequence {
+                                selector: selector.clone(),
+                                step_index: i as u32,
+                            });
+                        }
+                        if *item != 0 {
+                            return Err(ApplyError::MissingSequence {
+                                selector: selector.clone(),
+                                step_index: i as u32,
+                            });
+                        }
+                        obj = None;
+                    }
+                    Some(e) => {
+                        let items = e.items().ok_or_else(|| ApplyError::NotASequence {
+                            selector: selector.clone(),
+                            step_index: i as u32,
+                        })?;
+                        let index = *item as usize;
+                        if index < items.len() {
+                            obj = Some(&items[index]);
+                        } else if index == items.len() {
+                            // the next item would be created
+                            obj = None;
+                        } else {
+                            return Err(ApplyError::MissingSequence {
+                                selector: selector.clone(),
+                                step_index: i as u32,
+                            });
+                        }
+                    }
+                }
+            }
+        }
+        Ok(())
     }
 
     fn apply_leaf(&mut self, tag: Tag, action: AttributeAction) -> ApplyResult {
